@@ -1,13 +1,19 @@
 import Driver.Common
 import IoraModel.Model.SyncRecvGen
+import IoraModel.Model.SyncRecvW
 /-! Driver of the C03 model (`iora_model syncrecv`): the single-threaded lockstep ops of harness/c03_syncrecv.cpp and the
-micro-step acceptor (`st …`) that replays a DetSched trace of the real class step by step. -/
+micro-step acceptor (`st …`) that replays a DetSched trace of the real class step by step. The state is the wrapper-layer state
+(`Model/SyncRecvW.lean`, receiveSyncCancellable); plain operations are its `.base` steps. What a sub-call of a running wrapper
+answers is not observable on the real class (the wrapper swallows `Timeout`s and returns everything else itself), so those
+`recvRet` events are not printed - the wrapper's own `wrapRet` is. -/
 namespace Iora.Driver.SyncRecv
 open Iora Iora.SyncRecv Iora.Driver
 
 structure St where
   cfg : Cfg := defaultCfg
-  s : State := {}
+  ws : WState := {}
+
+def St.s (st : St) : State := st.ws.core
 
 def showRes : RecvRes → String
   | .ok bs => s!"ok:{toHex bs}"
@@ -23,6 +29,18 @@ def showEv : Ev → String
   | .modeRet sid b => s!"modeRet:{sid}:{bit b}"
 
 def joinEvs (l : List String) : String := if l.isEmpty then "-" else ";".intercalate l
+
+/-- events of a wrapper step as the harness can observe them; `pre` = wrapper calls running before the step -/
+def showWEvs (pre : Nat → Option WCall) (evs : List WEv) : List String :=
+  evs.filterMap fun e => match e with
+    | .base (.recvRet sid r) => if (pre sid).isSome then none else some (showEv (.recvRet sid r))
+    | .base e => some (showEv e)
+    | .wrapRet sid r => some s!"wrapRet:{sid}:{showRes r}"
+
+/-- run base steps through the wrapper layer (so that a running wrapper call sees its sub-call's critical sections) -/
+def runBase (cfg : Cfg) (ws : WState) (steps : List Step) : WState × List Ev :=
+  let r := wrun cfg ws (steps.map .base)
+  (r.1, coreEvs r.2)
 
 def showMode : Option Mode → String
   | none => "-" | some .async => "a" | some .sync => "s" | some .disabled => "d"
@@ -65,51 +83,95 @@ def parseStep : List String → Option Step
   | ["fence", n] => do let n ← parseBit n; pure (.fence n)
   | _ => none
 
+/-- run wrapper steps one by one, stopping as soon as the wrapper has returned -/
+def runUntilRet (cfg : Cfg) : WState → List WStep → List WEv → WState × List WEv
+  | ws, [], acc => (ws, acc)
+  | ws, st :: rest, acc =>
+    let r := wstep cfg ws st
+    if r.2.any (fun e => match e with | .wrapRet _ _ => true | _ => false) then (r.1, acc ++ r.2)
+    else runUntilRet cfg r.1 rest (acc ++ r.2)
+
+def parseWStep : List String → Option WStep
+  | ["wCall", sid, len] => do let sid ← sid.toNat?; let len ← len.toNat?; pure (.wCall sid len)
+  | ["wLoop", sid, e] => do let sid ← sid.toNat?; let e ← parseBit e; pure (.wLoop sid e)
+  | ["cancel", sid] => do let sid ← sid.toNat?; pure (.cancel sid)
+  | l => (parseStep l).map .base
+
 def step (st : St) : List String → St × String
   | ["reset", mb, gc, al] =>
     match mb.toNat?, gc.toNat?, parseBit al with
     | some mb, some gc, some al =>
-      ({ cfg := genCfg mb gc al, s := {} }, "ok")
+      ({ cfg := genCfg mb gc al, ws := {} }, "ok")
     | _, _, _ => (st, "bad-op")
   | ["data", sid, hx] =>
     match sid.toNat?, ofHex hx with
     | some sid, some d =>
-      let (s', evs) := runSteps st.cfg st.s [.ioData sid d, .ioDeliver]
-      ({ st with s := s' }, s!"{joinEvs (cbEvs evs)} | {showState s' sid}")
+      let (w', evs) := runBase st.cfg st.ws [.ioData sid d, .ioDeliver]
+      ({ st with ws := w' }, s!"{joinEvs (cbEvs evs)} | {showState w'.core sid}")
     | _, _ => (st, "bad-op")
   | ["close", sid] =>
     match sid.toNat? with
     | some sid =>
-      let (s', _) := runSteps st.cfg st.s [.ioClose sid]
-      ({ st with s := s' }, s!"gclose:{sid} | {showState s' sid}")
+      let (w', _) := runBase st.cfg st.ws [.ioClose sid]
+      ({ st with ws := w' }, s!"gclose:{sid} | {showState w'.core sid}")
     | none => (st, "bad-op")
   | ["recv", sid, len, _t] =>
     match sid.toNat?, len.toNat? with
     | some sid, some len =>
-      let (s', evs) := runSteps st.cfg st.s [.recvEnter sid len, .recvWake sid true]
+      let (w', evs) := runBase st.cfg st.ws [.recvEnter sid len, .recvWake sid true]
       let r := evs.filterMap fun e => match e with | .recvRet _ r => some (showRes r) | _ => none
-      ({ st with s := s' }, s!"{joinEvs r} {joinEvs (cbEvs evs)} | {showState s' sid}")
+      ({ st with ws := w' }, s!"{joinEvs r} {joinEvs (cbEvs evs)} | {showState w'.core sid}")
     | _, _ => (st, "bad-op")
+  | ["recvc", sid, len, t] =>
+    -- single-threaded receiveSyncCancellable: entry check; timeout 0 = the loop is never entered; else one sub-call, which either
+    -- answers at once or parks until its (sub-)timeout, after which - nothing else can happen meanwhile - the deadline has passed
+    match sid.toNat?, len.toNat?, t.toNat? with
+    | some sid, some len, some t =>
+      let script : List WStep :=
+        if t == 0 then [.wCall sid len, .wLoop sid true]
+        else [.wCall sid len, .wLoop sid false, .base (.recvEnter sid len), .base (.recvWake sid true), .wLoop sid true]
+      let r := runUntilRet st.cfg st.ws script []
+      let res := r.2.filterMap fun e => match e with | .wrapRet _ x => some (showRes x) | _ => none
+      ({ st with ws := r.1 }, s!"{joinEvs (res.take 1)} {joinEvs (cbEvs (coreEvs r.2))} | {showState r.1.core sid}")
+    | _, _, _ => (st, "bad-op")
+  | ["cancel", sid] =>
+    match sid.toNat? with
+    | some sid =>
+      let r := wstep st.cfg st.ws (.cancel sid)
+      ({ st with ws := r.1 }, s!"ok | {showState r.1.core sid}")
+    | none => (st, "bad-op")
+  | ["recvlong", sid, len, _t, hx] =>
+    -- a receive on a second thread, the chunk delivered once it is parked (or has returned), then its wake-up
+    match sid.toNat?, len.toNat?, ofHex hx with
+    | some sid, some len, some d =>
+      let (w', evs) := runBase st.cfg st.ws [.recvEnter sid len, .ioData sid d, .ioDeliver, .recvWake sid false]
+      let r := evs.filterMap fun e => match e with | .recvRet _ r => some (showRes r) | _ => none
+      ({ st with ws := w' }, s!"{joinEvs r} {joinEvs (cbEvs evs)} | {showState w'.core sid}")
+    | _, _, _ => (st, "bad-op")
+  | ["state", sid] =>
+    match sid.toNat? with
+    | some sid => (st, showState st.s sid)
+    | none => (st, "bad-op")
   | ["mode", sid, m] =>
     match sid.toNat?, parseMode m with
     | some sid, some m =>
       let (s1, e1) := Iora.SyncRecv.step st.cfg st.s (.setMode sid m)
       let (s2, evs) := flushAll st.cfg sid 8 s1 e1
       let r := evs.filterMap fun e => match e with | .modeRet _ b => some s!"ret:{bit b}" | _ => none
-      ({ st with s := s2 }, s!"{joinEvs r} {joinEvs (cbEvs evs)} | {showState s2 sid}")
+      ({ st with ws := { st.ws with core := s2 } }, s!"{joinEvs r} {joinEvs (cbEvs evs)} | {showState s2 sid}")
     | _, _ => (st, "bad-op")
   | ["fence", n] =>
     match parseBit n with
     | some n =>
       let (s', _) := Iora.SyncRecv.step st.cfg st.s (.fence n)
-      ({ st with s := s' }, s!"ok | {showState s' 0}")
+      ({ st with ws := { st.ws with core := s' } }, s!"ok | {showState s' 0}")
     | none => (st, "bad-op")
   | "st" :: rest =>
-    match parseStep rest with
+    match parseWStep rest with
     | some sp =>
-      let d := ok st.s sp
-      let (s', evs) := Iora.SyncRecv.step st.cfg st.s sp
-      ({ st with s := s' }, s!"{joinEvs (evs.map showEv)} d={bit d}")
+      let d := okW st.ws sp
+      let r := wstep st.cfg st.ws sp
+      ({ st with ws := r.1 }, s!"{joinEvs (showWEvs st.ws.w r.2)} d={bit d}")
     | none => (st, "bad-op")
   | _ => (st, "bad-op")
 
